@@ -469,10 +469,12 @@ CANON_VARIANTS = (['0..127 via int8', '0..127 via int16', '0..127 via int32', '0
                    '255 via uint8', '-1 via int8', '65535 via uint16', '2^32-1 via uint32', '2^64-1 via uint64',
                    'reals via double', 'reals via float', '0.0 double', '-0.0 double', '0.0 float', '-0.0 float',
                    'NaN 7ff8000000000000', 'NaN 7ff8000000000001', 'NaN fff8000000000000', 'NaN 7ff0000000000001 (signalling)', 'NaN float 7fc00000', 'NaN float ffc00001',
-                   '"abc" string', '"" then "abc"', '"abc" raw bytes', 'fixed mixed stream'])
+                   '"abc" string', '"" then "abc"', '"abc" raw bytes', 'fixed mixed stream'] +
+                  ['raw item of %d bytes' % n for n in range(131)] + ['string item of %d bytes' % n for n in range(131)])
 CANON_GROUPS = [('integer overloads, values 0..127', range(0, 8)), ('signed overloads, negative values (sign extension)', range(8, 12)),
                 ('float vs double of the same values', (17, 18)), ('0.0 / -0.0, double and float', range(19, 23)),
-                ('NaN payloads, double and float', range(23, 29)), ('string / empty string ignored / raw bytes', (29, 30, 31))]
+                ('NaN payloads, double and float', range(23, 29)), ('string / empty string ignored / raw bytes', (29, 30, 31))] + \
+               [('item of %d bytes as raw bytes and as std::string' % n, (33 + n, 164 + n)) for n in range(1, 131)]
 # HLL coupon hash set stored verbatim in the updatable image: lg_k, n (SET mode up to 3/4 * 2^(lg_k-3) coupons; table of 2^14 slots from 6145 coupons on)
 HLL_SET_CASES = {'quick': [(17, 6200), (17, 7000), (17, 8000)], 'thorough': [(17, 6200), (17, 7000), (17, 8000), (17, 12000), (21, 7000), (21, 30000), (21, 120000)]}
 
@@ -641,7 +643,7 @@ def oracle_c10(case, irecs, mrecs):
                                   '(bytes %d stream %d consumed-all %d wrap %d paths-agree %d same-content %d)' % (op[2], fam, case['ops'][0][3:], fb, fs, fc, fw, agree, eq), op_index=i))
     return fails
 
-RULE_C10 = ('(0) input canonicalisation: for theta, tuple, array-of-doubles, HLL_4, HLL_8, hll_union, cpc, cpc_union, count-min and bloom the same logical values through every update() overload (int8..int64 / uint8..uint64 incl. negative values, float vs double, -0.0 vs 0.0, six NaN payloads, string / empty string / raw bytes) into separate sketches must give identical images, and the image digests of 33 fixed inputs per type must equal the references recorded from the baseline; HLL coupon hash set stored verbatim in the updatable image (lg_k 17 with 6200/7000/8000 items, thorough also lg_k 21): digest = baseline digest and an independent reader checks that every stored coupon is reachable along the documented probe sequence; '
+RULE_C10 = ('(0) input canonicalisation: for theta, tuple, array-of-doubles, HLL_4, HLL_8, hll_union, cpc, cpc_union, count-min and bloom the same logical values through every update() overload (int8..int64 / uint8..uint64 incl. negative values, float vs double, -0.0 vs 0.0, six NaN payloads, string / empty string / raw bytes) into separate sketches must give identical images, and the image digests of 33 fixed inputs plus single raw-byte and string items of every length 0..130 (all MurmurHash3 / XXHash64 block and tail combinations) per type must equal the references recorded from the baseline; HLL coupon hash set stored verbatim in the updatable image (lg_k 17 with 6200/7000/8000 items, thorough also lg_k 21): digest = baseline digest and an independent reader checks that every stored coupon is reachable along the documented probe sequence; '
             '(a) the 15 reference images shipped under */test/*.sk are read through bytes, stream and wrap readers: all paths agree, the stream reader consumes exactly the file, the content equals the '
             'content recorded from the pinned commit and the facts in the file names (k, n); (b) a baseline corpus of images of every type/state class written by the pinned commit is re-read by '
             'the current tree (content = recorded content), the current tree writes byte-identical images for the same histories (hash-table order canonicalised; compared when the history still yields the recorded content); (c) images in older formats (theta serial versions 1 and 2, tuple legacy, t-digest reference big-endian formats) synthesised from the documented layouts are read back '
